@@ -88,7 +88,7 @@ def showLife (c : Crypto Sym) (env : Env) (l : Life Sym) (strayKey : Data) : Str
   let stg := match l.stage with
     | .noParty => "none" | .r0 => "r0" | .r0ready => "r0ready" | .signing => "signing" | .gone => "gone"
   let proc := if l.stage = .signing then showState c env l.proc strayKey else "-"
-  s!"st={stg} stored={l.stored.length} pf={l.pfuture.length} k0={b01 l.key0Done} to={b01 l.timedOut} rej={b01 l.rejected} | {proc}"
+  s!"st={stg} stored={l.stored.length} pf={(l.pfuture env).length} keys={(if l.stage = .signing then l.proc.stray.items.length else l.parked.items.length)} k0={b01 l.key0Done} to={b01 l.timedOut} rej={b01 l.rejected} | {proc}"
 
 def filedOf : Wire Sym → Data → Data
   | .ok m, _ => m.blockHash
